@@ -135,3 +135,97 @@ func TestC12ConcurrentDuplicates(t *testing.T) {
 		sec.Case(dupRemovals > 0, fmt.Sprintf("goroutines=%d steps=%s", g, strings.Join(steps, ",")), fmt.Sprintf("goroutines=%d", g))
 	})
 }
+
+const ruleDeep = "rapid: (a) a non-root node whose Process sends a nested event of its own type on the same Broker with the context it was given, to a drawn depth of 2-300; (b) 150-400 goroutines each sending an event whose non-root node re-sends once; (c) an unreferenced node whose Close sends an event is overwritten by RegisterNode, or removed; all under the watchdog, followed by a writing probe call; oracle = every call returns within the bound; non-trivial = depth >= 130 or >= 150 concurrent re-sending Sends; distinct = configuration"
+
+type nestPayload struct{ depth int }
+
+// TestC12DeepNesting: nested and massively concurrent re-entrant Sends, and registry calls that make the broker
+// close a node whose Close calls back.
+func TestC12DeepNesting(t *testing.T) {
+	sec := stats.Sec("deep_nesting", ruleDeep)
+	rapid.Check(t, func(t *rapid.T) {
+		mode := rapid.SampledFrom([]string{"nested", "nested", "concurrent", "overwrite-closer", "remove-closer"}).Draw(t, "mode")
+		depth := rapid.SampledFrom([]int{2, 17, 127, 128, 129, 130, 200, 300}).Draw(t, "depth")
+		callers := rapid.SampledFrom([]int{150, 260, 400}).Draw(t, "callers")
+		d := fmt.Sprintf("mode=%s depth=%d callers=%d", mode, depth, callers)
+		b, _ := eventlogger.NewBroker()
+		w := &nodes.World{}
+		ctx := context.Background()
+		root := &nodes.N{W: w, Name: "root", ID: "root", T: eventlogger.NodeTypeFilter}
+		fm := &nodes.N{W: w, Name: "fm", ID: "fm", T: eventlogger.NodeTypeFormatter}
+		sk := &nodes.N{W: w, Name: "sk", ID: "sk", T: eventlogger.NodeTypeSink}
+		_ = b.RegisterNode("root", root)
+		_ = b.RegisterNode("fm", &resender{N: fm, b: b, limit: depth, once: mode == "concurrent"})
+		_ = b.RegisterNode("sk", sk)
+		_ = b.RegisterPipeline(eventlogger.Pipeline{PipelineID: "p", EventType: "T", NodeIDs: []eventlogger.NodeID{"root", "fm", "sk"}})
+		closer := &nodes.N{W: w, Name: "closer", ID: "closer", T: eventlogger.NodeTypeFilter}
+		closer.OnClose = func(*nodes.N) { _, _ = b.Send(ctx, "T", &nestPayload{depth: 1 << 30}) }
+		_ = b.RegisterNode("closer", closer)
+		var f func()
+		switch mode {
+		case "nested":
+			f = func() { _, _ = b.Send(ctx, "T", &nestPayload{}) }
+		case "concurrent":
+			f = func() {
+				var wg sync.WaitGroup
+				for i := 0; i < callers; i++ {
+					wg.Add(1)
+					go func() { defer wg.Done(); _, _ = b.Send(ctx, "T", &nestPayload{}) }()
+				}
+				wg.Wait()
+			}
+		case "overwrite-closer":
+			f = func() {
+				_ = b.RegisterNode("closer", &nodes.N{W: w, Name: "closer2", ID: "closer", T: eventlogger.NodeTypeFilter})
+			}
+		case "remove-closer":
+			f = func() { _ = b.RemoveNode(ctx, "closer") }
+		}
+		fail := func(what string) {
+			gs := leak.BlockedInLib(leak.Dump())
+			if len(gs) == 0 {
+				fmt.Printf("\nINCONCLUSIVE-MARK watchdog: %s did not return within %s but no library goroutine is blocked\n", what, bound)
+				t.Skip("inconclusive")
+			}
+			var sb strings.Builder
+			for i, x := range gs {
+				if i < 6 {
+					sb.WriteString(x.Text + "\n\n")
+				}
+			}
+			t.Fatalf("VIOLATION C12: %s did not return within %s (%d library goroutines blocked)\ncase: %s\nsome of them:\n%s", what, bound, len(gs), d, sb.String())
+		}
+		if !exec(f) {
+			fail("the " + mode + " call")
+		}
+		if !exec(func() {
+			_ = b.RegisterNode("probe", &nodes.N{W: w, Name: "probe", ID: "probe", T: eventlogger.NodeTypeFilter})
+		}) {
+			fail("the final probe call")
+		}
+		if !exec(func() { _, _ = b.Send(ctx, "T", &nestPayload{depth: 1 << 30}) }) {
+			fail("a plain Send after the " + mode + " call")
+		}
+		sec.Case((mode == "nested" && depth >= 130) || mode == "concurrent", d, "mode="+mode)
+	})
+}
+
+// resender is a formatter that, before passing the event on, sends a nested event of the same type.
+type resender struct {
+	*nodes.N
+	b     *eventlogger.Broker
+	limit int
+	once  bool
+}
+
+func (r *resender) Process(ctx context.Context, e *eventlogger.Event) (*eventlogger.Event, error) {
+	if p, ok := e.Payload.(*nestPayload); ok && p.depth < r.limit {
+		next := p.depth + 1
+		if r.once {
+			next = 1 << 30
+		}
+		_, _ = r.b.Send(ctx, e.Type, &nestPayload{depth: next})
+	}
+	return r.N.Process(ctx, e)
+}
